@@ -1997,12 +1997,12 @@ func bLPop(n *Nodis, conn *redis.Conn, cmd redis.Command) {
 		keys = append(keys, cmd.Args[i])
 	}
 	timeout, err := strconv.ParseFloat(cmd.Args[len(cmd.Args)-1], 64)
-	if err != nil {
-		conn.WriteError("ERR timeout value is not an integer or out of range")
+	if err != nil || timeout != timeout || timeout < 0 || timeout > 1e9 {
+		conn.WriteError("ERR timeout is not a float or out of range")
 		return
 	}
 	execCommand(conn, func() {
-		k, v := n.BLPop(time.Duration(timeout*time.Second.Seconds())*time.Second, keys...)
+		k, v := n.BLPop(time.Duration(timeout*float64(time.Second)), keys...)
 		if k == "" {
 			conn.WriteArrayNull()
 			return
@@ -2023,12 +2023,12 @@ func bRPop(n *Nodis, conn *redis.Conn, cmd redis.Command) {
 		keys = append(keys, cmd.Args[i])
 	}
 	timeout, err := strconv.ParseFloat(cmd.Args[len(cmd.Args)-1], 64)
-	if err != nil {
-		conn.WriteError("ERR timeout value is not an integer or out of range")
+	if err != nil || timeout != timeout || timeout < 0 || timeout > 1e9 {
+		conn.WriteError("ERR timeout is not a float or out of range")
 		return
 	}
 	execCommand(conn, func() {
-		k, v := n.BRPop(time.Duration(timeout*time.Second.Seconds())*time.Second, keys...)
+		k, v := n.BRPop(time.Duration(timeout*float64(time.Second)), keys...)
 		if k == "" {
 			conn.WriteArrayNull()
 			return
